@@ -2,14 +2,8 @@ import WM.Lemmas.SearchCursorBuild
 /-! The cursor tree `build` constructs denotes `compile` (mutual induction over the query). -/
 namespace WM.Compile
 open WM.Search
-open WM.Matcher (Any mkInter mkUnion mkDisMax mkAndNot mkAndMaybe mkRequire mkInverse mkConst mkBoost allIds WF
+open WM.Matcher (Any mkInter mkUnion mkDisMax mkAndNot mkAndMaybe mkRequire mkInverse mkConst mkBoost mkAUnion allIds WF
   ListM unionWith scale)
-
-theorem DenotesL.length : ∀ {ms : List Any} {pls : List PL}, DenotesL ms pls → ms.length = pls.length
-  | [], [], _ => rfl
-  | _ :: ms, _ :: ls, h => by simp [DenotesL.length (ms := ms) (pls := ls) h.2]
-  | [], _ :: _, h => by cases h
-  | _ :: _, [], h => by cases h
 
 theorem postings_sorted (ls : LeafScore) (s : Segment) (f : String) (t : Term) : Sorted (postings ls s f t) := by
   rw [postings_eq_canon]; exact canon_sorted (live_asc s) _ _
@@ -55,9 +49,80 @@ theorem buildList_length {ls : LeafScore} {so : ShapeOracle} {s : Segment} {ctx 
 theorem bind_ok {α β} (x : MR α) (f : α → MR β) (a : α) (h : x = .ok a) : (x >>= f) = f a := by
   rw [h]; rfl
 
+theorem boostL_one (l : PL) : boostL 1 l = l := by
+  unfold boostL
+  conv => rhs; rw [← List.map_id l]
+  apply List.map_congr_left
+  intro e _
+  cases e
+  simp [Rat.mul_one]
+
+theorem postings_id_lt (ls : LeafScore) (s : Segment) (f : String) (t : Term) :
+    ∀ e ∈ postings ls s f t, e.id < s.size := by
+  intro e he
+  unfold postings at he
+  obtain ⟨i, hi, rfl⟩ := List.mem_map.mp he
+  have h1 := (List.mem_filter.mp hi).1
+  unfold Segment.live at h1
+  have := (List.mem_filter.mp h1).1
+  simpa using this
+
+theorem lexicon_postings_sorted (ls : LeafScore) (s : Segment) (f : String) (b : Rat) :
+    Sorted (constL (wOf b) (unionAll ((lexicon s f).map (postings ls s f)))) := by
+  apply constL_sorted
+  apply (unionAll_spec _).1
+  intro m hm
+  obtain ⟨t, _, rfl⟩ := List.mem_map.mp hm
+  exact postings_sorted ls s f t
+
+theorem live_map_sorted (s : Segment) (w : Rat) : Sorted (s.live.map (fun i => (⟨i, w⟩ : Hit))) := by
+  unfold Sorted
+  rw [List.pairwise_map]
+  exact live_asc s
+
+theorem denotesL_postings (ls : LeafScore) (s : Segment) (f : String) :
+    ∀ ts : List Term, DenotesL (ts.map (fun t => listOf (postings ls s f t))) (ts.map (postings ls s f))
+  | [] => trivial
+  | t :: ts => ⟨denotes_listOf (postings_sorted ls s f t), denotesL_postings ls s f ts⟩
+
+/-- clauses that are plain terms (boost 1) with positive leaf scores: their built matchers are the list
+    matchers over their compiled lists -/
+theorem unitTerms_lists (ls : LeafScore) (so : ShapeOracle) (s : Segment) (ctx : Ctx) :
+    ∀ qs : List Query,
+      (∀ q ∈ qs, ∃ f t, q = Query.term f t 1 ∧ ∀ e ∈ postings ls s f t, 0 < e.score) →
+      buildList ls so s ctx qs = .ok ((compileList ls so s ctx qs).map listOf) ∧
+      ∀ l ∈ compileList ls so s ctx qs, Sorted l ∧ ∀ e ∈ l, 0 < e.score ∧ e.id < s.size
+  | [], _ => ⟨by simp [buildList, compileList], by intro l hl; simp [compileList] at hl⟩
+  | q :: qs, h => by
+    obtain ⟨f, t, rfl, hpos⟩ := h q List.mem_cons_self
+    obtain ⟨ih1, ih2⟩ := unitTerms_lists ls so s ctx qs (fun q' hq' => h q' (List.mem_cons_of_mem _ hq'))
+    have hc : compile ls so s ctx (.term f t 1) = postings ls s f t := by simp only [compile]; exact boostL_one _
+    have hb : build ls so s ctx (.term f t 1) = .ok (listOf (postings ls s f t)) := by simp [build, boostM]
+    refine ⟨?_, ?_⟩
+    · simp only [buildList, compileList, hb, ih1, hc]; rfl
+    · intro l hl
+      simp only [compileList, hc, List.mem_cons] at hl
+      rcases hl with rfl | hl
+      · exact ⟨postings_sorted ls s f t, fun e he => ⟨hpos e he, postings_id_lt ls s f t e he⟩⟩
+      · exact ih2 l hl
+
+theorem unionOK_orOK {ls : LeafScore} {so : ShapeOracle} {s : Segment} {ctx : Ctx} {qs : List Query} {b : Rat}
+    (h : UnionOK ls s ctx qs b) {ms : List Any} (hms : buildList ls so s ctx qs = .ok ms)
+    (hlen : ms.length = qs.length) (h2 : 2 ≤ ms.length) :
+    OrOK ctx s.size b ms (compileList ls so s ctx qs) := by
+  rcases h with hle | ⟨hlt, hor⟩ | ⟨hsc, hb, hall⟩
+  · exact .inl ⟨by omega, .inr (.inl (by omega))⟩
+  · refine .inl ⟨by omega, ?_⟩
+    rcases hor with hnc | hdc
+    · exact .inl hnc
+    · exact .inr (.inr hdc)
+  · obtain ⟨h1, h3⟩ := unitTerms_lists ls so s ctx qs hall
+    rw [h1] at hms
+    exact .inr ⟨hsc, hb, by cases hms; rfl, h3⟩
+
 mutual
 theorem build_denotes (ls : LeafScore) (so : ShapeOracle) (s : Segment) :
-    ∀ (q : Query) (ctx : Ctx), TreeOnly s ctx q →
+    ∀ (q : Query) (ctx : Ctx), CursorOK ls s ctx q →
       ∃ m, build ls so s ctx q = .ok m ∧ Denotes m (compile ls so s ctx q)
   | .term f t b, ctx, _ => by
     refine ⟨boostM b (listOf (postings ls s f t)), by simp [build], ?_⟩
@@ -65,7 +130,7 @@ theorem build_denotes (ls : LeafScore) (so : ShapeOracle) (s : Segment) :
     exact denotes_boostM b (denotes_listOf (postings_sorted ls s f t))
   | .null, ctx, _ => ⟨Any.null, by simp [build], by simp only [compile]; exact denotes_null⟩
   | .and qs b, ctx, h => by
-    simp only [TreeOnly] at h
+    simp only [CursorOK] at h
     obtain ⟨ms, hms, hd⟩ := buildList_denotes ls so s qs ctx h
     simp only [build, compile]
     rw [bind_ok _ _ ms hms]
@@ -74,35 +139,15 @@ theorem build_denotes (ls : LeafScore) (so : ShapeOracle) (s : Segment) :
     obtain ⟨m, hm, hdm⟩ := foldShapeM_denotes opOk_inter hd (so qs)
     exact ⟨_, by rw [bind_ok _ _ m hm]; rfl, denotes_boostM b hdm⟩
   | .or qs b, ctx, h => by
-    simp only [TreeOnly] at h
+    simp only [CursorOK] at h
     obtain ⟨ms, hms, hd⟩ := buildList_denotes ls so s qs ctx h.1
-    have hlen := hd.length
-    have hcl : (compileList ls so s ctx qs).length = qs.length := compileList_length ls so s ctx qs
     simp only [build, compile]
     rw [bind_ok _ _ ms hms]
     apply compound_denotes b hd
     intro h2
-    have hcond : (decide (ms.length < 1024) && (ctx.nc || ms.length == 2 || decide (5000 < s.size))) = true := by
-      rw [hlen, hcl]
-      rw [hlen, hcl] at h2
-      rcases h.2 with hle | ⟨hlt, hor⟩
-      · have : qs.length = 2 := by omega
-        simp [this]
-      · rcases hor with hnc | hdc
-        · simp [hlt, hnc]
-        · simp [hlt, hdc]
-    have hcond' : (decide ((compileList ls so s ctx qs).length < 1024) &&
-        (ctx.nc || (compileList ls so s ctx qs).length == 2 || decide (5000 < s.size))) = true := by
-      rw [← hlen]; exact hcond
-    obtain ⟨m, hm, hdm⟩ := foldShapeM_denotes opOk_union hd (so qs)
-    refine ⟨boostM b m, ?_, ?_⟩
-    · simp only [hcond, if_true]
-      rw [bind_ok _ _ m hm]; rfl
-    · unfold orMany
-      simp only [hcond', if_true]
-      exact denotes_boostM b hdm
+    exact orManyM_denotes (so qs) hd h2 (unionOK_orOK h.2 hms (buildList_length hms) h2)
   | .dismax qs b, ctx, h => by
-    simp only [TreeOnly] at h
+    simp only [CursorOK] at h
     obtain ⟨ms, hms, hd⟩ := buildList_denotes ls so s qs ctx h
     simp only [build, compile]
     rw [bind_ok _ _ ms hms]
@@ -111,7 +156,7 @@ theorem build_denotes (ls : LeafScore) (so : ShapeOracle) (s : Segment) :
     obtain ⟨m, hm, hdm⟩ := foldShapeM_denotes opOk_dismax hd (so qs)
     exact ⟨_, by rw [bind_ok _ _ m hm]; rfl, denotes_boostM b hdm⟩
   | .not q, ctx, h => by
-    simp only [TreeOnly] at h
+    simp only [CursorOK] at h
     obtain ⟨c, hc, hdc⟩ := build_denotes ls so s q boolCtx h
     obtain ⟨m, h1, h2, h3⟩ := (WM.C11.constructors_wf c c hdc.1 hdc.1).2.2.2.2.2 s.size s.deleted 1 0
     refine ⟨m, ?_, h2, ?_⟩
@@ -119,7 +164,7 @@ theorem build_denotes (ls : LeafScore) (so : ShapeOracle) (s : Segment) :
     · simp only [compile]
       rw [h3, toPL_complement, hdc.2]
   | .andNot a b, ctx, h => by
-    simp only [TreeOnly] at h
+    simp only [CursorOK] at h
     obtain ⟨x, hx, hdx⟩ := build_denotes ls so s a ctx h.1
     obtain ⟨y, hy, hdy⟩ := build_denotes ls so s b boolCtx h.2
     obtain ⟨m, h1, h2, h3⟩ := (WM.C11.constructors_wf x y hdx.1 hdy.1).2.1
@@ -127,7 +172,7 @@ theorem build_denotes (ls : LeafScore) (so : ShapeOracle) (s : Segment) :
     · simp only [build]; rw [bind_ok _ _ x hx, bind_ok _ _ y hy]; exact h1
     · simp only [compile]; rw [h3, toPL_diff, hdx.2, hdy.2]
   | .andMaybe a b, ctx, h => by
-    simp only [TreeOnly] at h
+    simp only [CursorOK] at h
     obtain ⟨x, hx, hdx⟩ := build_denotes ls so s a ctx h.1
     obtain ⟨y, hy, hdy⟩ := build_denotes ls so s b ctx h.2
     obtain ⟨m, h1, h2, h3⟩ := (WM.C11.constructors_wf x y hdx.1 hdy.1).2.2.1
@@ -135,7 +180,7 @@ theorem build_denotes (ls : LeafScore) (so : ShapeOracle) (s : Segment) :
     · simp only [build]; rw [bind_ok _ _ x hx, bind_ok _ _ y hy]; exact h1
     · simp only [compile]; rw [h3, toPL_leftJoin, hdx.2, hdy.2]
   | .require a b, ctx, h => by
-    simp only [TreeOnly] at h
+    simp only [CursorOK] at h
     obtain ⟨x, hx, hdx⟩ := build_denotes ls so s a ctx h.1
     obtain ⟨y, hy, hdy⟩ := build_denotes ls so s b boolCtx h.2
     obtain ⟨m, h1, h2, h3⟩ := (WM.C11.constructors_wf x y hdx.1 hdy.1).2.2.2.1
@@ -143,45 +188,124 @@ theorem build_denotes (ls : LeafScore) (so : ShapeOracle) (s : Segment) :
     · simp only [build]; rw [bind_ok _ _ x hx, bind_ok _ _ y hy]; exact h1
     · simp only [compile]; rw [h3, toPL_require, hdx.2, hdy.2]
   | .constScore q sc, ctx, h => by
-    simp only [TreeOnly] at h
+    simp only [CursorOK] at h
     obtain ⟨c, hc, hdc⟩ := build_denotes ls so s q ctx h
-    simp only [build, compile, csL]
+    simp only [build, compile]
     rw [bind_ok _ _ c hc]
-    by_cases hnc : ctx.nc = true
-    · simp only [hnc, if_true]
-      refine ⟨mkConst c sc, rfl, hdc.1, ?_⟩
-      show toPL (WM.Matcher.constScore sc c.den) = _
-      rw [toPL_constScore, hdc.2]
-    · simp only [hnc]
-      have hids := WM.C11.all_ids_base c hdc.1
-      rw [bind_ok _ _ _ hids]
-      refine ⟨_, rfl, ?_⟩
-      have heq : (c.den.map (·.1)).map (fun i => (⟨i, wOf sc⟩ : Hit)) = constL (wOf sc) (compile ls so s ctx q) := by
-        rw [← hdc.2]
-        simp [constL, toPL, List.map_map, Function.comp_def]
-      rw [heq]
-      apply denotes_listOf
-      apply constL_sorted
-      rw [← hdc.2]
-      have hasc := WM.C11.sorted c.1 c.2 hdc.1
-      unfold Sorted toPL
-      rw [List.pairwise_map]
-      exact hasc
-  | .multi _ _ _ _, _, h => by simp [TreeOnly] at h
-  | .phrase _ _ _ _, _, h => by simp [TreeOnly] at h
-  | .numRange _ _ _ _ _ _, _, h => by simp [TreeOnly] at h
-  | .every _ _, _, h => by simp [TreeOnly] at h
+    exact csM_denotes ctx sc hdc
+  | .every none b, ctx, _ => by
+    refine ⟨listOf (s.live.map (fun i => (⟨i, wOf b⟩ : Hit))), by simp [build], ?_⟩
+    simp only [compile]
+    exact denotes_listOf (live_map_sorted s _)
+  | .every (some f) b, ctx, _ => by
+    refine ⟨everyFieldM ls s f b, by simp [build], ?_⟩
+    simp only [compile]
+    exact denotes_listOf (lexicon_postings_sorted ls s f b)
+  | .multi f p b cs, ctx, h => by
+    simp only [CursorOK] at h
+    simp only [build, compile]
+    by_cases hall : isAllPred p = true
+    · simp only [hall, if_true]
+      exact ⟨_, rfl, denotes_listOf (lexicon_postings_sorted ls s f b)⟩
+    · have hu := h.resolve_left hall
+      simp only [hall, Bool.false_eq_true, if_false]
+      generalize (lexicon s f).filter p.test = ts at hu ⊢
+      match ts, hu with
+      | [], _ => exact ⟨Any.null, rfl, denotes_null⟩
+      | [t], _ =>
+        have hd := denotes_listOf (postings_sorted ls s f t)
+        cases cs with
+        | true => simpa using csM_denotes ctx b hd
+        | false => exact ⟨_, rfl, by simpa using denotes_boostM b hd⟩
+      | t1 :: t2 :: tr, hu =>
+        have hd := denotesL_postings ls s f (t1 :: t2 :: tr)
+        have hlen : ((t1 :: t2 :: tr).map (fun t => listOf (postings ls s f t))).length = (t1 :: t2 :: tr).length := by
+          simp
+        -- the expansion is `Or([Term(f, t) ...])`: the clause lists are the postings
+        have hcl : ∀ c : Ctx, ∀ us : List Term,
+            compileList ls so s c (us.map (fun t => Query.term f t 1)) = us.map (postings ls s f) := by
+          intro c us
+          induction us with
+          | nil => simp [compileList]
+          | cons u us ih => simp only [List.map_cons, compileList, ih, compile, boostL_one]
+        have hbl : ∀ c : Ctx, ∀ us : List Term,
+            buildList ls so s c (us.map (fun t => Query.term f t 1)) =
+              .ok (us.map (fun t => listOf (postings ls s f t))) := by
+          intro c us
+          induction us with
+          | nil => simp [buildList]
+          | cons u us ih => simp only [List.map_cons, buildList, ih, build, boostM, if_true]; rfl
+        have hok := unionOK_orOK (so := so) hu (hbl _ (t1 :: t2 :: tr)) (by simp) (by simp)
+        rw [hcl] at hok
+        obtain ⟨m, hm, hdm⟩ := orManyM_denotes (so ((t1 :: t2 :: tr).map (fun t => Query.term f t 1))) hd
+          (by simp) hok
+        cases cs with
+        | true =>
+          obtain ⟨m', hm', hdm'⟩ := csM_denotes ctx b hdm
+          exact ⟨m', by simp only [if_true] at hm ⊢; rw [bind_ok _ _ m hm]; exact hm', by simpa using hdm'⟩
+        | false =>
+          exact ⟨m, by simp only [Bool.false_eq_true, if_false] at hm ⊢; rw [bind_ok _ _ m hm]; rfl,
+            by simpa using hdm⟩
+  | .phrase _ _ _ _, _, h => by simp [CursorOK] at h
+  | .numRange _ _ _ _ _ _, _, h => by simp [CursorOK] at h
 theorem buildList_denotes (ls : LeafScore) (so : ShapeOracle) (s : Segment) :
-    ∀ (qs : List Query) (ctx : Ctx), TreeOnlyL s ctx qs →
+    ∀ (qs : List Query) (ctx : Ctx), CursorOKL ls s ctx qs →
       ∃ ms, buildList ls so s ctx qs = .ok ms ∧ DenotesL ms (compileList ls so s ctx qs)
   | [], ctx, _ => ⟨[], by simp [buildList], by simp [compileList, DenotesL]⟩
   | q :: qs, ctx, h => by
-    simp only [TreeOnlyL] at h
+    simp only [CursorOKL] at h
     obtain ⟨m, hm, hd⟩ := build_denotes ls so s q ctx h.1
     obtain ⟨ms, hms, hds⟩ := buildList_denotes ls so s qs ctx h.2
     refine ⟨m :: ms, ?_, ?_⟩
     · simp only [buildList]; rw [bind_ok _ _ m hm, bind_ok _ _ ms hms]; rfl
     · simp only [compileList]; exact ⟨hd, hds⟩
 end
+
+mutual
+/-- round 2's fragment is part of `CursorOK` (with no positivity condition: it has no array union) -/
+theorem treeOnly_cursorOK (ls : LeafScore) (s : Segment) : ∀ (q : Query) (ctx : Ctx), TreeOnly s ctx q → CursorOK ls s ctx q
+  | .term _ _ _, _, _ => trivial
+  | .null, _, _ => trivial
+  | .and qs _, ctx, h => by simp only [TreeOnly] at h; simp only [CursorOK]; exact treeOnlyL_cursorOKL ls s qs ctx h
+  | .or qs b, ctx, h => by
+    simp only [TreeOnly] at h; simp only [CursorOK]
+    refine ⟨treeOnlyL_cursorOKL ls s qs ctx h.1, ?_⟩
+    rcases h.2 with h2 | h2
+    · exact .inl h2
+    · exact .inr (.inl h2)
+  | .dismax qs _, ctx, h => by simp only [TreeOnly] at h; simp only [CursorOK]; exact treeOnlyL_cursorOKL ls s qs ctx h
+  | .not q, _, h => by simp only [TreeOnly] at h; simp only [CursorOK]; exact treeOnly_cursorOK ls s q boolCtx h
+  | .andNot a b, ctx, h => by
+    simp only [TreeOnly] at h; simp only [CursorOK]
+    exact ⟨treeOnly_cursorOK ls s a ctx h.1, treeOnly_cursorOK ls s b boolCtx h.2⟩
+  | .andMaybe a b, ctx, h => by
+    simp only [TreeOnly] at h; simp only [CursorOK]
+    exact ⟨treeOnly_cursorOK ls s a ctx h.1, treeOnly_cursorOK ls s b ctx h.2⟩
+  | .require a b, ctx, h => by
+    simp only [TreeOnly] at h; simp only [CursorOK]
+    exact ⟨treeOnly_cursorOK ls s a ctx h.1, treeOnly_cursorOK ls s b boolCtx h.2⟩
+  | .constScore q _, ctx, h => by simp only [TreeOnly] at h; simp only [CursorOK]; exact treeOnly_cursorOK ls s q ctx h
+  | .multi _ _ _ _, _, h => by simp [TreeOnly] at h
+  | .phrase _ _ _ _, _, h => by simp [TreeOnly] at h
+  | .numRange _ _ _ _ _ _, _, h => by simp [TreeOnly] at h
+  | .every _ _, _, h => by simp [TreeOnly] at h
+theorem treeOnlyL_cursorOKL (ls : LeafScore) (s : Segment) :
+    ∀ (qs : List Query) (ctx : Ctx), TreeOnlyL s ctx qs → CursorOKL ls s ctx qs
+  | [], _, _ => by simp [CursorOKL]
+  | q :: qs, ctx, h => by
+    simp only [TreeOnlyL] at h; simp only [CursorOKL]
+    exact ⟨treeOnly_cursorOK ls s q ctx h.1, treeOnlyL_cursorOKL ls s qs ctx h.2⟩
+end
+
+/-- under the theorems' positivity hypotheses the array-union clause of `UnionOK` asks only for the shape -/
+theorem unionOK_of_pos {ls : LeafScore} {s : Segment} (hleaf : PosLeaf ls s) {ctx : Ctx} {qs : List Query} {b : Rat}
+    (hsc : ctx.scored = true) (hb : 0 < b) (hq : ∀ q ∈ qs, ∃ f t, q = Query.term f t 1) : UnionOK ls s ctx qs b := by
+  refine .inr (.inr ⟨hsc, hb, fun q hq' => ?_⟩)
+  obtain ⟨f, t, rfl⟩ := hq q hq'
+  refine ⟨f, t, rfl, fun e he => ?_⟩
+  unfold postings at he
+  obtain ⟨i, hi, rfl⟩ := List.mem_map.mp he
+  have := List.mem_filter.mp hi
+  exact hleaf i this.1 f t this.2
 
 end WM.Compile
